@@ -360,7 +360,7 @@ def _views_of(kind, inp, exp):
         return inp, _seg_views(inp, exp)
     if kind == "idx":
         return inp, _idx_views(inp, exp)
-    if kind == "graph":
+    if kind in ("graph", "loop"):
         return inp, _graph_views(inp, exp)
     if kind == "lemma":
         g = {"n": exp["n"], "E": exp["E"]}
@@ -399,7 +399,7 @@ def exec_states(item):
         subject, views = _views_of(kind, inp, exp)
         cache = {}
         for view, e in views:
-            stacks = (False,) if kind in ("graph", "lemma") else (False, True)
+            stacks = (False,) if kind in ("graph", "lemma", "loop") else (False, True)
             for stack in stacks:
                 if stack and view[0].endswith("_seg") and view[0] != "iter_seg":
                     continue   # segments.py functions that never see the atom container
@@ -751,7 +751,7 @@ def run(ctx):
     ctx.cov["s2_real_calls"] = calls
     ctx.traces_validated += done
     ctx.evaluations += calls
-    missing = {"seg", "idx", "graph", "lemma"} - set(kinds)
+    missing = {"seg", "idx", "graph", "lemma", "loop"} - set(kinds)
     if missing:
         raise Vacuity(f"input families never executed: {sorted(missing)}")
     ctx.log(f"S2: {done}/{nstates} states, {calls} real calls, families {kinds}")
@@ -855,7 +855,7 @@ def run(ctx):
 def replay(record):
     """Re-execute one stored mismatch against the current code."""
     kind = record.get("kind")
-    if kind == "case" and record.get("family") in ("seg", "idx", "graph", "lemma"):
+    if kind == "case" and record.get("family") in ("seg", "idx", "graph", "lemma", "loop"):
         obs = observe(record["view"], record["inp"], record.get("stack", False))
         return {"view": record["view"], "inp": record["inp"], "expected": record["expected"],
                 "observed": obs, "mismatch": not agree(record["view"], record["expected"], obs)}
